@@ -608,6 +608,21 @@ fn equivalences(c: &mut Ctx, rng: &mut Rng) {
         let it2 = it.clone();
         let (x, y): (usize, usize) = p.install(|| (it.count(), it2.count()));
         crate::check!(x == a.len() && y == a.len(), "ParIter and its clone count {} / {} of {}", x, y, a.len());
+        let (kc, vc): (usize, usize) = p.install(|| (a.par_keys().clone().count(), a.par_values().clone().count()));
+        crate::check!(kc == a.len() && vc == a.len(), "cloned ParKeys/ParValues count {} / {} of {}", kc, vc, a.len());
+        {
+            let mut tb: Tb<P8> = Tb::new_in(CkAlloc);
+            for i in 0..n {
+                tb.insert_unique(splitmix64(i as u64), P8::make(i, 0), |e| splitmix64(e.id() as u64));
+            }
+            let pi = (&tb).into_par_iter();
+            let pc = pi.clone();
+            let (x, y): (usize, usize) = p.install(|| (pi.count(), pc.count()));
+            crate::check!(x == tb.len() && y == tb.len(), "table ParIter and its clone count {} / {} of {}", x, y, tb.len());
+            let d1 = format!("{:?}", (&tb).into_par_iter()) + &format!("{:?}", (&mut tb).into_par_iter()) + &format!("{:?}", tb.clone().into_par_iter());
+            let d2 = format!("{:?}", tb.par_drain());
+            crate::check!(tb.is_empty() && !d1.is_empty() && !d2.is_empty(), "table: undriven par_drain leaves len {}", tb.len());
+        }
         let dbg = format!("{:?} {:?} {:?}", a.par_iter(), a.par_keys(), a.par_values());
         let mut a4 = a.clone();
         let dbg2 = format!("{:?}", a4.par_iter_mut()) + &format!("{:?}", a4.par_values_mut()) + &format!("{:?}", a4.par_drain());
